@@ -144,6 +144,10 @@ class Walk:
         if verdict != "ok":
             det.update(info)
             return self.fail(("not-equivalent", verdict, rule_name, ap.arrangement), det)
+        w = E.evaluate_disagrees(new)
+        if w is not None and E.evaluate_disagrees(root) is None:
+            det.update(w)
+            return self.fail(("evaluate-disagrees-with-structure", rule_name, ap.arrangement), det)
         self.root = new
         self.applied.append(rule_name)
         if len(A.preorder(new)) > MAX_NODES or E.has_huge_constant(new):
